@@ -274,6 +274,9 @@ structure KRes where
   closedWin : Bool := false
   /-- model-side event: a handshake completed on a TCB that had already retransmitted its SYN / SYN-ACK -/
   hsRetx : Bool := false
+  /-- model-side event: an ACK that acknowledges bytes still held in `send_buf` was discarded because
+      it lies above `snd_nxt` (which a go-back-N rewind had pulled back) -/
+  ackIgnored : Bool := false
   /-- model-side: classes of the sockets left in the tables at the end of the case -/
   leftover : List String := []
   line : Nat := 0
@@ -285,10 +288,28 @@ def replay (cfg : Cfg) (c : Case) : KRes := Id.run do
   let mut s := Sys.init cfg c.hosts
   let mut closedWin := false
   let mut hsRetx := false
+  let mut ackIgnored := false
   for r in c.ops do
     match r.op with
     | none => return { ok := false, line := r.line, want := "<unparsable op>", got := r.text }
     | some op =>
+      if !ackIgnored then
+        let pid := match op with | .deliver id => some id | .dup id => some id | _ => none
+        match pid.bind fun id => s.wire.lookup id with
+        | some p =>
+          if p.udp.isNone && p.seg.flags.ack && !p.seg.flags.rst then
+            match Sys.hostOfIp p.dst with
+            | some hh =>
+              let k := s.kernel hh
+              match (k.findConnection ⟨p.dst, p.seg.dstPort⟩ ⟨p.src, p.seg.srcPort⟩).bind k.getTcb with
+              | some t =>
+                let acked := wsub p.seg.ack t.sndUna
+                let lim := t.sendBuf.length + (if t.finSeq.isSome then 1 else 0)
+                if t.state != .closed && !t.isHandshake && 0 < acked && acked > t.inFlight && acked ≤ lim then
+                  ackIgnored := true
+              | none => pure ()
+            | none => pure ()
+        | none => pure ()
       let (s', obs) := s.step op
       if !hsRetx then
         hsRetx := (s.kernels.zip s'.kernels).any fun (k, k') => k.sockets.any fun e => match e.2.tcb with
@@ -316,7 +337,7 @@ def replay (cfg : Cfg) (c : Case) : KRes := Id.run do
       else if e.2.fdClosed && (!t.recvBuf.isEmpty || (t.sndWnd == 0 && !t.sendBuf.isEmpty)) then some "blocked"
       else if e.2.fdClosed then some "stranded"
       else none
-  return { ok := true, closedWin := closedWin, hsRetx := hsRetx, leftover := leftover }
+  return { ok := true, closedWin := closedWin, hsRetx := hsRetx, ackIgnored := ackIgnored, leftover := leftover }
 
 /-- Every non-empty combination of the repair flags (the implementation may carry any subset of
     the repairs; DESIGN 1.3). -/
@@ -393,8 +414,9 @@ def patLostHandshakeAck (h : Spec.History) : Bool :=
       | none => false
     | _ => false)
 
-/-- F-C06-4: a zero-window ACK was delivered after a younger packet of the same flow (so a stale
-    "window closed" can be the last word the sender hears). -/
+/-- F-C06-4: a segment advertising window 0 (pure ACK, data or FIN — every segment carries the
+    window) was delivered after a younger packet of the same flow, so a stale "window closed" can be
+    the last word the sender hears. -/
 def patStaleZeroWindow (h : Spec.History) : Bool :=
   let em := emitted h
   (h.foldl (fun (acc : List (Nat × Packet) × Bool) e =>
@@ -404,7 +426,7 @@ def patStaleZeroWindow (h : Spec.History) : Bool :=
       | some p =>
         let younger := acc.1.any fun q => q.1 > id && q.2.src == p.src && q.2.seg.srcPort == p.seg.srcPort &&
           q.2.dst == p.dst && q.2.seg.dstPort == p.seg.dstPort
-        (acc.1 ++ [(id, p)], acc.2 || (isPureAck p && p.seg.window == 0 && younger))
+        (acc.1 ++ [(id, p)], acc.2 || (p.udp.isNone && p.seg.flags.ack && !p.seg.flags.rst && p.seg.window == 0 && younger))
       | none => acc
     | _ => acc) ([], false)).2
 
@@ -460,7 +482,7 @@ structure ORes where
   fail : Option String := none
   pattern : String := "none"
 
-def oracle (prop : String) (c : Case) (h : Spec.History) (closedWin hsRetx : Bool) (leftover : List String) : ORes :=
+def oracle (prop : String) (c : Case) (h : Spec.History) (closedWin hsRetx ackIgnored : Bool) (leftover : List String) : ORes :=
   if let some p := c.panic then { fail := some s!"implementation panicked: {p}" } else
   match prop with
   | "C06" =>
@@ -472,6 +494,7 @@ def oracle (prop : String) (c : Case) (h : Spec.History) (closedWin hsRetx : Boo
         | some m =>
           let pat := if closedWin && (patStaleZeroWindow h || patLostWindowUpdate h) then "F-C06-4"
                      else if closedWin && patOvershoot c.cfg h then "F-C06-7"
+                     else if ackIgnored then "F-C06-8"
                      else if closedWin then "F-C06-2"
                      else if patLostHandshakeAck h then "F-C06-3"
                      else if patLostAckOfFin h then "F-C06-6"
@@ -572,7 +595,9 @@ def processCase (prop : String) (c : Case) (memo : IO.Ref (Option Cfg)) : IO (Bo
   -- on a mismatch with the code-as-found model try the repaired variants, the one that matched the
   -- previous case first
   let last ← memo.get
-  let cands : List Cfg := (match last with | some f => [withFlags c.cfg f] | none => []) ++ fixedVariants c.cfg
+  let committed : Cfg := { c.cfg with fixReapOrphan := true, fixReack := true, fixWinUpdate := true, fixHsReset := true,
+                                      fixRstAfterClose := true, fixQuietClose := true, fixSynWindow := true }
+  let cands : List Cfg := [committed] ++ (match last with | some f => [withFlags c.cfg f] | none => []) ++ fixedVariants c.cfg
   let found := if c.nok || k0.ok then none
     else cands.findSome? fun cfg => let r := replay cfg c; if r.ok then some (cfg, r) else none
   if let some (cfg, _) := found then memo.set (some cfg)
@@ -584,7 +609,7 @@ def processCase (prop : String) (c : Case) (memo : IO.Ref (Option Cfg)) : IO (Bo
       | some (_, r) => (true, "fixed", k0, r)
       | none => (false, "-", k0, k0)
   let h := history c
-  let o := oracle prop c h (kOk && kgood.closedWin) (kOk && kgood.hsRetx) (if kOk then kgood.leftover else [])
+  let o := oracle prop c h (kOk && kgood.closedWin) (kOk && kgood.hsRetx) (kOk && kgood.ackIgnored) (if kOk then kgood.leftover else [])
   let cov := covTags c h
   let detail :=
     (if kOk then "" else s!"K line {kr.line}: model={kr.want} | impl={kr.got} ") ++
